@@ -108,6 +108,12 @@ class Gen:
                 body.append(log_stmt(call('systemGlobalGet', sq(r.choice(['xx', 'tot', 'nope', 'yy'])), sq('dflt'))))
             elif self.funcs:
                 body.append(('assign', r.choice(['yy', 'rr']), self.call_any(local_names, 1)))
+        if last and r.random() < 0.6:
+            # the "..." array is mutated in place and sometimes returned: every call must get a fresh one
+            body.append(('expr', call('arrayPush', ('var', params[-1]), self.expr([n for n in local_names if n != params[-1]], 1))))       # (never the array itself: no cycles)
+            body.append(log_stmt(call('stringNew', ('var', params[-1]))))
+            if r.random() < 0.5:
+                body.append(('return', ('var', params[-1])))
         body.append(('return', self.expr(local_names + ['tot'], 2) if r.random() < 0.85 else None))
         self.funcs.append((name, params, last))
         return ('func', name, params, last, body)
@@ -207,7 +213,7 @@ def compare(prog, src, host):
     d = {'kind': 'program', 'source': src, 'host': enc(host)}
     # implementation
     ilog = []
-    ig = dict(host)            # the caller's globals object (shallow: host values keep their identity)
+    ig = {k: copy.deepcopy(v) if isinstance(v, (list, dict)) else v for k, v in host.items()}     # the caller's globals object (own copies of containers)
     ig_before = dict(ig)
     opts = {'globals': ig, 'logFn': lambda m: ilog.append(('log', m)), 'maxStatements': 20000}
     model = impl.parse_valid(src, d)
@@ -219,12 +225,14 @@ def compare(prog, src, host):
         got = ('host-exception', '%s: %s' % (type(e).__name__, e))
     # reference
     rlog = []
-    rg = dict(host)
+    rg = {k: copy.deepcopy(v) if isinstance(v, (list, dict)) else v for k, v in host.items()}
     ref = interp.Ref(rg, rlog, fuel=50000)
     try:
         expected = ('ok', ref.run_program(prog))
     except interp.Indeterminate as e:
         return None, str(e)
+    except RecursionError:
+        return None, 'cyclic structure (an array pushed into itself through an alias)'
     except interp.RefRuntimeError as e:
         expected = ('runtime-error', e.kind)
     if got[0] != expected[0] or (got[0] != 'ok' and got[1] != expected[1]):
@@ -278,7 +286,7 @@ def check_expression_mode(rnd):
     aliases = sorted(interp.EXPRESSION_ALIASES)
     name = rnd.choice(['abs', 'max', 'len', 'text', 'upper', 'min', 'floor', 'round', 'lower', 'trim'])
     arg = rnd.choice([-3.5, 'Abc ', 2.0])
-    where = rnd.choice(['locals', 'globals', 'both', 'none', 'locals-null'])
+    where = rnd.choice(['locals', 'globals', 'both', 'none', 'locals-null', 'globals-null'])
     text = '%s(vv)' % name
     expr = impl.bs.parse_expression(text)
     globals_ = {'vv': arg}
@@ -287,6 +295,10 @@ def check_expression_mode(rnd):
         globals_[name] = shadow_len
     if where in ('locals', 'both'):
         locals_[name] = shadow_upper
+    if where == 'locals-null':
+        locals_[name] = None        # bound to null: the binding still wins, so the call is an undefined-function error
+    if where == 'globals-null':
+        globals_[name] = None
     d = {'kind': 'expression-mode', 'text': text, 'where': where, 'arg': enc(arg)}
     rg = dict(globals_)
     ref = interp.Ref(rg, [], builtins=True, library=False)
@@ -294,10 +306,19 @@ def check_expression_mode(rnd):
         expected = ref.ev(('call', name, [('var', 'vv')]), dict(locals_))
     except interp.Indeterminate:
         return None
+    except interp.RefRuntimeError:
+        expected = interp.RefRuntimeError
     try:
         got = impl.bs.evaluate_expression(expr, {'globals': globals_}, locals_, True)
+    except impl.bs.RuntimeError as e:
+        got = interp.RefRuntimeError if 'Undefined function' in str(e) else ('runtime-error', str(e))
     except Exception as e:  # pylint: disable=broad-except
         raise Violation('%s with %s bound in %s raised %s' % (text, name, where, type(e).__name__), d, 'expression-mode-raises') from e
+    if expected is interp.RefRuntimeError or got is interp.RefRuntimeError:
+        if got is not expected:
+            raise Violation('%s with %s bound to null in %s: %r, expected an undefined-function error (a bound name wins over the built-in)' % (
+                text, name, where, got), d, 'expression-mode-null-binding')
+        return where
     if not _same(got, expected):
         raise Violation('%s with %s bound in %s = %r, expected %r (locals, then globals, then built-ins)' % (text, name, where, got, expected), d,
                         'expression-mode-lookup')
